@@ -20,8 +20,8 @@ def main():
         smt.CONFIRM_WAIT = 4.0
     try:
         return mod.run(tier, seed)
-    except core.EngineError as e:
-        # the executor cannot encode the current tree: run the property's replay battery as a safety net
+    except (core.EngineError, ValueError) as e:
+        # the executor (or the lowering of its term graph) cannot encode the current tree: run the property's replay battery as a safety net
         try:
             from props import fallback
             return fallback.run(pid, tier, seed, str(e)[:600])
